@@ -67,7 +67,7 @@ impl Property for C19 {
         if kind == "follow" || rng.chance(1, 2) {
             cfg = sqlgen::plain_table_cfg();
         }
-        let lc = sqlgen::LineCfg { null_pct: *rng.pick(&[0, 0, 20]), bad_n_pct: 0, n_range: 3, keys: rng.range(1, 4) as usize };
+        let lc = sqlgen::LineCfg { null_pct: *rng.pick(&[0, 0, 20]), bad_n_pct: 0, n_range: 3, keys: rng.range(1, 4) as usize, zero_pct: 0 };
         let observable = rng.chance(1, 2);
         let join = kind.starts_with("join");
         let query = match kind {
@@ -136,6 +136,9 @@ impl Property for C19 {
             "joined": if join { J::String(enc(&gen::join_lines(&joined, true))) } else { J::Null },
             "format": rng.pick(&["text", "text", "json", "csv"]),
             "single": rng.chance(1, 3),
+            // an undecodable line at this position of the main input: an interrupt that arrives before it is
+            // consumed must still end the query without an error
+            "bad_at": if kind != "follow" && rng.chance(1, 6) { json!(rng.below(n_main + 1)) } else { J::Null },
         })
     }
 
@@ -164,12 +167,33 @@ impl Property for C19 {
         }
         let follow = kind == "follow";
         let aggregate = kind.contains("aggregate");
+        let bad_at: Option<usize> = if follow { None } else { case.get("bad_at").and_then(|x| x.as_u64()).map(|x| x as usize) };
+        // the files as the query sees them (with the undecodable line, if any)
+        let files_run: Vec<Vec<u8>> = match bad_at {
+            None => files.clone(),
+            Some(b) => {
+                let mut out_files = Vec::new();
+                let mut seen = 0usize;
+                let mut placed = false;
+                for f in &files {
+                    let mut ls = complete_lines(f);
+                    let original = ls.len();
+                    if !placed && b <= seen + original {
+                        ls.insert(b - seen, vec![0xFF, b'x']);
+                        placed = true;
+                    }
+                    seen += original;
+                    out_files.push(gen::join_lines(&ls, true));
+                }
+                out_files
+            }
+        };
         let features = json!({"kind": kind, "joined": joined.is_some()});
         let all_lines: Vec<Vec<u8>> = files.iter().flat_map(|f| complete_lines(f)).collect();
         let n_main_files = if follow { 1 } else { files.len() };
         let case_hash = fnv(serde_json::to_string(case).unwrap().as_bytes());
         let follow_content: Vec<u8> = gen::join_lines(&all_lines, true);
-        let main_contents: Vec<(usize, &[u8])> = if follow { vec![(0, &follow_content[..])] } else { files.iter().enumerate().map(|(i, f)| (i, &f[..])).collect() };
+        let main_contents: Vec<(usize, &[u8])> = if follow { vec![(0, &follow_content[..])] } else { files_run.iter().enumerate().map(|(i, f)| (i, &f[..])).collect() };
         let joined_contents: Vec<(usize, &[u8])> = joined.as_ref().map(|j| vec![(n_main_files, &j[..])]).unwrap_or_default();
 
         let make_spec = |interrupt: Option<Interrupt>| -> WorldSpec {
@@ -190,7 +214,7 @@ impl Property for C19 {
                 spec.interrupt = interrupt;
                 spec
             } else {
-                let mut spec = batch_spec(&defs, &stmt, &files, joined.as_deref());
+                let mut spec = batch_spec(&defs, &stmt, &files_run, joined.as_deref());
                 spec.read_mode = ReadMode::Line;
                 spec.format = format.clone();
                 spec.single_result = single;
@@ -204,11 +228,13 @@ impl Property for C19 {
         if !usable(&mut out, "c19", &base, &features) {
             return out;
         }
-        if base.status != Status::Ok {
+        let base_fails_on_bad_line = bad_at.is_some() && matches!(&base.status, Status::Err(msg) if msg.contains("read file"));
+        if base.status != Status::Ok && !base_fails_on_bad_line {
             // a statement that fails on this data is not a scenario for this property
             out.invalid = Some(format!("uninterrupted run: {}", status_label(&base.status)));
             return out;
         }
+        out.probe("undecodable_line_after_interrupt_point", base_fails_on_bad_line as u64);
         let base_records = if follow { stdout_lines(&base) } else { records(&base) };
 
         // reference worlds: same statement over exactly the first c lines, uninterrupted, bulk reads
@@ -259,6 +285,11 @@ impl Property for C19 {
             };
             if !res.terminated() {
                 fail(&mut out, "c19.no_termination", format!("still running after {} events", res.log.len()));
+            } else if base_fails_on_bad_line && res.interrupted_at.is_none() {
+                // the undecodable line was consumed before the interrupt position was reached: same failure as uninterrupted
+                if status_label(&res.status) != status_label(&base.status) {
+                    fail(&mut out, "c19.not_a_prefix", format!("interrupt never reached but the run reports {} instead of {}", status_label(&res.status), status_label(&base.status)));
+                }
             } else if res.status != Status::Ok {
                 // a failure is the interruption's doing unless a plain run over the consumed lines fails the same way
                 let served = res.interrupted_at.map(|e| lines_served_before(&res, &main_contents, e)).unwrap_or(all_lines.len());
